@@ -132,44 +132,87 @@ func (P *Prover) locallyControlled(p Poly) (controlled bool, hasParam bool) {
 
 // isEdgesBase: does the indexed slice value denote DenseGraph adjacency storage?
 func isEdgesBase(c *Ctx, f *fa, base ssa.Value, denseT types.Type, newDense *ssa.Function) bool {
+	// inside a closure: a slice read from a captured variable is judged in the enclosing function
+	if f.fn.Parent() != nil {
+		if ld, ok := base.(*ssa.UnOp); ok && ld.Op == token.MUL {
+			if fv, ok := ld.X.(*ssa.FreeVar); ok {
+				idx := -1
+				for k, x := range f.fn.FreeVars {
+					if x == fv {
+						idx = k
+					}
+				}
+				pf := c.Eff().fas[f.fn.Parent()]
+				if idx >= 0 && pf != nil {
+					for _, b := range f.fn.Parent().Blocks {
+						for _, in := range b.Instrs {
+							mc, ok := in.(*ssa.MakeClosure)
+							if !ok || mc.Fn != ssa.Value(f.fn) || idx >= len(mc.Bindings) {
+								continue
+							}
+							// the captured cell: every slice value stored in it
+							for cell := range pf.P(mc.Bindings[idx]) {
+								for held := range pf.contentOf(cell.o, cell.p, nil) {
+									if edgesObj(c, pf, held.o, denseT, newDense) {
+										return true
+									}
+								}
+							}
+						}
+					}
+				}
+			}
+		}
+	}
 	for l := range f.P(base) {
-		o := l.o
 		if l.p != "" {
 			continue
 		}
-		// (a) reached through the Edges field of a DenseGraph
-		if o.parent != nil && o.slot == "Edges" && o.parent.typ != nil {
-			pt := o.parent.typ
-			if p, ok := pt.Underlying().(*types.Pointer); ok {
-				pt = p.Elem()
-			}
-			if types.Identical(pt, denseT) {
-				return true
-			}
+		if edgesObj(c, f, l.o, denseT, newDense) {
+			return true
 		}
-		// (b) stored into the Edges field of some DenseGraph object of this function
-		for _, dg := range f.objs {
-			if dg.typ == nil {
-				continue
+	}
+	return false
+}
+
+// edgesObj: is o (an array object of function f) DenseGraph adjacency storage?
+func edgesObj(c *Ctx, f *fa, o *obj, denseT types.Type, newDense *ssa.Function) bool {
+	{
+		{
+			// (a) reached through the Edges field of a DenseGraph
+			if o.parent != nil && o.slot == "Edges" && o.parent.typ != nil {
+				pt := o.parent.typ
+				if p, ok := pt.Underlying().(*types.Pointer); ok {
+					pt = p.Elem()
+				}
+				if types.Identical(pt, denseT) {
+					return true
+				}
 			}
-			dt := dg.typ
-			if p, ok := dt.Underlying().(*types.Pointer); ok {
-				dt = p.Elem()
+			// (b) stored into the Edges field of some DenseGraph object of this function
+			for _, dg := range f.objs {
+				if dg.typ == nil {
+					continue
+				}
+				dt := dg.typ
+				if p, ok := dt.Underlying().(*types.Pointer); ok {
+					dt = p.Elem()
+				}
+				if !types.Identical(dt, denseT) {
+					continue
+				}
+				if dg.content["Edges"][loc{o, ""}] {
+					return true
+				}
 			}
-			if !types.Identical(dt, denseT) {
-				continue
-			}
-			if dg.content["Edges"][loc{o, ""}] {
-				return true
-			}
-		}
-		// (c) passed as the edges argument of NewDense
-		if newDense != nil {
-			for _, b := range f.fn.Blocks {
-				for _, in := range b.Instrs {
-					if call, ok := in.(*ssa.Call); ok && call.Call.StaticCallee() == newDense && len(call.Call.Args) == 2 {
-						if f.P(call.Call.Args[1])[loc{o, ""}] {
-							return true
+			// (c) passed as the edges argument of NewDense
+			if newDense != nil {
+				for _, b := range f.fn.Blocks {
+					for _, in := range b.Instrs {
+						if call, ok := in.(*ssa.Call); ok && call.Call.StaticCallee() == newDense && len(call.Call.Args) == 2 {
+							if f.P(call.Call.Args[1])[loc{o, ""}] {
+								return true
+							}
 						}
 					}
 				}
@@ -426,6 +469,14 @@ func ruleTriX(c *Ctx, files func(string) bool, rule string, exactCell bool) *Rul
 						r.find(name+":"+src+" offset cell", c.instrPos(ia), "%s: %s addresses row %s, column %s: a method of the representation must address the cell of the two vertices themselves (row = larger vertex, column = smaller), not a shifted row or column", name, src, P.showTerm(J), P.showTerm(I))
 						continue
 					}
+					if controlled && !lt && (fn.Parent() != nil || fn.Object() == nil || !fn.Object().Exported()) {
+						// a closure or unexported helper addressing a cell named by its parameters: the order
+						// of the two vertices is the callers' obligation, proved at every call site
+						if liftTri(c, fn, P, I, J) {
+							lt = true
+							r.note("%s: %s: I < J established at every call site", name, src)
+						}
+					}
 					if controlled {
 						// a vertex number passed as a parameter is non-negative by the callers' contract;
 						// a parameter-free column index must be shown non-negative here
@@ -465,4 +516,30 @@ func ruleTriX(c *Ctx, files func(string) bool, rule string, exactCell bool) *Rul
 		}
 	}
 	return r
+}
+
+// liftTri proves I < J for a site inside a closure / unexported helper at every call of it.
+func liftTri(c *Ctx, fn *ssa.Function, HP *Prover, I, J Poly) bool {
+	goal := I.add(J, -1).add(constP(1), 1)
+	n := 0
+	for _, caller := range c.Funcs {
+		var CP *Prover
+		for _, b := range caller.Blocks {
+			for _, in := range b.Instrs {
+				call, ok := in.(*ssa.Call)
+				if !ok || call.Call.StaticCallee() != fn {
+					continue
+				}
+				n++
+				if CP == nil {
+					CP = NewProver(c, caller)
+				}
+				t, ok := translatePoly(HP, goal, fn, CP, call.Call.Args)
+				if !ok || !CP.Prove(t, b) {
+					return false
+				}
+			}
+		}
+	}
+	return n > 0
 }
